@@ -1,5 +1,5 @@
 (* Props/C02.v -- C02: composition law.  Property theorems only. *)
-From AT Require Import Num Vec Aff PTree Cells Abs ArenaEval ArenaCompose ArenaComposeAbs.
+From AT Require Import Num Vec Aff PTree Cells Abs ArenaEval ArenaCompose ArenaComposeAbs ArenaFrameCheck.
 
 (* f.compose(g) without pruning: h(x) is defined exactly when f(x) and g(f(x)) are, and then h(x) = g(f(x));
    every branching factor (children lists of any length), partial operands (U), boundary inputs. *)
@@ -46,6 +46,12 @@ Proof. exact arena_compose_extends. Qed.
 Theorem C02_frame_one_terminal : forall alloc K s L a i a', fresh_alloc alloc ->
   arena_compose_at alloc K s L a i = Some a' -> untouched a a' i.
 Proof. exact arena_compose_at_untouched. Qed.
+(* the runner decides the frame relation on the implementation's dumps with a checker that is proved sound for it *)
+Theorem C02_frame_checker_sound : forall a a', extendsb a a' = true -> extends_f a a'.
+Proof. exact extendsb_sound. Qed.
+Theorem C02_frame_implies_checked_relation : forall a a', extends a a' -> extends_f a a'.
+Proof. exact extends_extends_f. Qed.
+
 (* the arena-level composition REFINES the lifted tree: if the receiver's arena abstracts to t, the run abstracts to
    lift s t L -- every schema, every K, every allocator returning unoccupied keys, the code's order of terminals;
    and it returns Ok (no unwrap fails) whenever lhs has K slots per decision with at least one child and the leaves
@@ -93,6 +99,8 @@ Print Assumptions C02_evaluate_is_eval.
 Print Assumptions C02_find_terminal_is_route.
 Print Assumptions C02_frame.
 Print Assumptions C02_frame_one_terminal.
+Print Assumptions C02_frame_checker_sound.
+Print Assumptions C02_frame_implies_checked_relation.
 Print Assumptions C02_arena_refines_lift.
 Print Assumptions C02_arena_compose_ok.
 Print Assumptions C02_frame_nonvacuous.
